@@ -1,4 +1,5 @@
 import PelProofs.Hlog
+import PelProofs.Loaders
 import PelGen.Live
 /-
   C16 — History logs show a full hex dump and exactly the non-zero fields.
@@ -34,5 +35,76 @@ theorem fields_spec (fields : List HlogField) (b : Bytes) (hb : ∀ x ∈ b, x <
 theorem value_roundtrip (size : Nat) (bs : Bytes) (hlen : bs.length = size) (hb : ∀ x ∈ bs, x < 256) :
     (hexFix (2 * size) (fromBE bs)).length = 2 * size ∧ parseHexText (hexFix (2 * size) (fromBE bs)) = fromBE bs := by
   exact ⟨hexFix_length _ _, parseHexText_hexFix _ _ (fromBE_lt_16 size bs hlen hb)⟩
+
+/-! ### the field-table LOADER (`get_hlog_fields`, modelled in PelModel/Regex.lean + Loaders.lean) -/
+
+/-- ★ Printing a field table as a C header (start line, `{`, one `  { size, "name" },` line per field, `};`) and loading it
+    with the model of the repo's loader gives the table back, for sizes in {1, 2} and non-empty names without `"`
+    (`hlogFieldWf`, decidable; names may contain anything else, newlines and backslashes included) -/
+theorem hlog_header_roundtrip (fs : List HlogField) (hwf : ∀ f ∈ fs, hlogFieldWf f = true) :
+    loadHlogFields (renderHlogHeader fs) = some fs := by
+  have := hlog_header_loaded fs hwf [] (by intro l hl; cases hl)
+  rw [List.append_nil] at this
+  exact this
+
+def demoFields : List HlogField := [(s "hl_isolated_standby", 1), (s "hl_power_ups", 2), (s "odd \\ name, } ;", 1)]
+
+example : (∀ f ∈ demoFields, hlogFieldWf f = true) ∧
+    renderHlogHeader demoFields =
+      [s "static struct mex_hlog_field mex_hlog_fields[MEX_HLOG_FIELD_COUNT] =\n", s "{\n", s "  { 1, \"hl_isolated_standby\" },\n",
+       s "  { 2, \"hl_power_ups\" },\n", s "  { 1, \"odd \\ name, } ;\" },\n", s "};\n"] ∧
+    loadHlogFields (renderHlogHeader demoFields) = some demoFields := by decide +kernel
+
+/-- ★ the groups of a field line in any layout (arbitrary blank runs where the pattern has `\s*`, trailing comma present) -/
+theorem field_line_groups (w0 w1 w2 w3 w4 w5 w6 : Text) (h0 : AllSp w0) (h1 : AllSp w1) (h2 : AllSp w2) (h3 : AllSp w3)
+    (h4 : AllSp w4) (h5 : AllSp w5) (h6 : AllSp w6) (sz : Nat) (hsz : sz = 49 ∨ sz = 50) (n : Nat) (name : Text)
+    (hn : n ≠ 34) (hname : ∀ x ∈ name, x ≠ 34) :
+    hlogFieldRe.fullmatch (w0 ++ 123 :: (w1 ++ sz :: (w2 ++ 44 :: (w3 ++ 34 :: n :: (name ++ 34 :: (w4 ++ 125 :: (w5 ++ 44 :: (w6 ++ []))))))))
+      = some [(2, n :: name), (1, [sz])] :=
+  hlogField_fullmatch w0 w1 w2 w3 w4 w5 w6 h0 h1 h2 h3 h4 h5 h6 sz hsz n name hn hname
+
+/-- the shipped layout: two blanks, a blank after the closing comma (the CR of CRLF files is already translated) -/
+example : (s "  ") ++ 123 :: ((s " ") ++ 50 :: ([] ++ 44 :: ((s " ") ++ 34 :: 104 :: ((s "l_power_ups") ++ 34 :: ((s " ") ++ 125 :: ([] ++ 44 :: ((s " \n") ++ [])))))))
+    = s "  { 2, \"hl_power_ups\" }, \n" ∧
+    hlogFieldRe.fullmatch (s "  { 2, \"hl_power_ups\" }, \n") = some [(2, s "hl_power_ups"), (1, s "2")] := by decide +kernel
+
+/-- ★ lines outside the array never contribute fields (as long as none of them is itself a start line) -/
+theorem lines_outside_table_ignored (fs : List HlogField) (hwf : ∀ f ∈ fs, hlogFieldWf f = true) (pre post : List Text)
+    (hpre : ∀ l ∈ pre, hlogStartRe.fullmatch l = none) (hpost : ∀ l ∈ post, hlogStartRe.fullmatch l = none) :
+    loadHlogFields (pre ++ renderHlogHeader fs ++ post) = some fs := by
+  unfold loadHlogFields
+  rw [List.append_assoc, loadHlogGo_before pre _ hpre]
+  exact hlog_header_loaded fs hwf post hpost
+
+theorem lines_before_start_ignored (pre rest : List Text) (hpre : ∀ l ∈ pre, hlogStartRe.fullmatch l = none) :
+    loadHlogFields (pre ++ rest) = loadHlogFields rest :=
+  loadHlogGo_before pre rest hpre
+
+/-- the shipped headers contain `struct mex_hlog_field` + `{ uint8_t size; … };` in front of the array and PTE entries
+    further up: such lines are not start lines -/
+example : let pre := [s "struct mex_hlog_field\n", s "{\n", s "  uint8_t size;\n", s "};\n", s "  { 1, \"before\" },\n"]
+    let post := [s "\n", s "  { 2, \"after\" },\n", s "};\n"]
+    (∀ l ∈ pre, hlogStartRe.fullmatch l = none) ∧ (∀ l ∈ post, hlogStartRe.fullmatch l = none) ∧
+    loadHlogFields (pre ++ renderHlogHeader demoFields ++ post) = some demoFields := by decide +kernel
+
+/-- ★ a line that matches none of the three patterns contributes nothing and does not disturb its neighbours -/
+theorem non_matching_lines_skipped (a b : List Text) (bad : Text) (h1 : hlogStartRe.fullmatch bad = none)
+    (h2 : hlogEndRe.fullmatch bad = none) (h3 : hlogFieldRe.fullmatch bad = none) :
+    loadHlogFields (a ++ bad :: b) = loadHlogFields (a ++ b) :=
+  loadHlogGo_bad_line bad h1 h2 h3 a b false
+
+example : ∀ bad ∈ [s "  { 3, \"three\" },\n", s "  { 1, \"\" },\n", s "  // c\n", s "  { 1, \"a\" }, // c\n"],
+    hlogStartRe.fullmatch bad = none ∧ hlogEndRe.fullmatch bad = none ∧ hlogFieldRe.fullmatch bad = none := by decide +kernel
+
+/-- ★ end to end, header file → field lines: decoding with the loaded table is decoding with the printed table -/
+theorem header_file_to_field_lines (fs : List HlogField) (hwf : ∀ f ∈ fs, hlogFieldWf f = true) (b : Bytes) (hb : ∀ x ∈ b, x < 256) :
+    (loadHlogFields (renderHlogHeader fs)).map (fun t => hlogFields t b) = some (specHlogFields fs b) := by
+  rw [hlog_header_roundtrip fs hwf]
+  simp only [Option.map_some]
+  rw [fields_spec fs b hb]
+
+/-- record `01 0002 00`: the two non-zero fields are listed, the third (zero) is not -/
+example : (loadHlogFields (renderHlogHeader demoFields)).map (fun t => hlogFields t [1, 0, 2, 0]) =
+    some [s "hl_isolated_standby: 0x01", s "hl_power_ups: 0x0002"] := by decide +kernel
 
 end Pel.C16
